@@ -116,7 +116,7 @@ def check_atan2(chk, F, ty, trait_body=None, names=("self", "other"), tag="lift"
                               body_loc(F, body), sp, val, best or wants[0])
 
 
-def check_signed(chk, F, ty):
+def check_signed(chk, F, ty, zero_paths=True):
     """abs / signum / abs_sub: guard on the real part's sign, arms +self / -self, constants, self-other / zero"""
     imps = F.impls_of("Signed", ty)
     if len(imps) != 1:
@@ -151,6 +151,9 @@ def check_signed(chk, F, ty):
                 if name == "abs":
                     # for re == 0 either sign is fine for the real part; derivative parts follow the arm taken
                     base = X if sign > 0 else (-X if sign < 0 else None)
+                    if base is None and not zero_paths:
+                        # (a dependent property that decides the zero real part on its own bodies does not constrain abs there)
+                        continue
                     if base is None:
                         # zero: accept +self or -self
                         w1 = sp.spec_of_real(X)
